@@ -255,3 +255,54 @@ class Check:
         with open(path, "w", encoding="utf-8") as fh:
             json.dump(ev, fh, indent=1, default=str)
             fh.write("\n")
+
+
+class SubCheck:
+    """Run (part of) another property's rule code on behalf of this property: obligations are recorded under
+    `rule` (this property's rule id) and only kept when `keep(construct, where)` is true.  Floors, notes and
+    analysed functions are forwarded; analysis errors of the borrowed rules are errors of this check too."""
+
+    def __init__(self, check: Check, rule: str, keep=None):
+        self._c, self._rule, self._keep = check, rule, keep or (lambda construct, where: True)
+        self.pid, self.tier, self.extra = check.pid, check.tier, {}
+
+    def _ok(self, construct, where):
+        try:
+            return bool(self._keep(construct, where))
+        except Exception:
+            return True
+
+    def analysed(self, *quals):
+        self._c.analysed(*quals)
+
+    def holds(self, rule, construct, detail="", where="", nontrivial=True, **facts):
+        if self._ok(construct, where):
+            self._c.holds(self._rule, construct, detail, where, nontrivial, **facts)
+
+    def violated(self, rule, construct, detail="", where="", _src=(), **facts):
+        if self._ok(construct, where):
+            self._c.violated(self._rule, construct, detail, where, _src=_src or Check._caller(), **facts)
+
+    def decide(self, ok, rule, construct, detail="", where="", fail_detail=None, **facts):
+        if not self._ok(construct, where):
+            return ok
+        if ok:
+            self._c.holds(self._rule, construct, detail, where, **facts)
+        else:
+            self._c.violated(self._rule, construct, fail_detail or detail, where, _src=Check._caller(), **facts)
+        return ok
+
+    def advisory(self, *a, **k):
+        pass
+
+    def note(self, text):
+        pass
+
+    def assume(self, text):
+        self._c.assume(text)
+
+    def floor(self, name, found, minimum):
+        self._c.floor(f"{self._rule}: {name}", found, minimum)
+
+    def error(self, text):
+        self._c.error(text)
